@@ -1895,7 +1895,14 @@ class Signature:
                 param.annotation, SequenceValue
             ):
                 simple_members = param.annotation.get_member_sequence()
-                if simple_members is None:
+                if simple_members is None or any(
+                    previous.kind is ParameterKind.POSITIONAL_OR_KEYWORD
+                    or previous.default is not None
+                    for previous in param_dict.values()
+                ):
+                    # Required positional-only parameters cannot follow one that
+                    # may be passed by name or has a default; keep *args and
+                    # check the tuple as a whole.
                     param_dict[param.name] = param
                     i += 1
                 else:
